@@ -489,8 +489,13 @@ def check_case(ctx, case, count=True, entries=None):
                 ctx.notes["refused_at_construction"] = ctx.notes.get("refused_at_construction", 0) + 1
             return None
         except Exception as e:
-            sig = (programs.classify_known(case["prog"], f"{type(e).__name__}: {e}") if case.get("prog") else None) or f"build:raises:{type(e).__name__}"
-            return [{"sig": sig, "entry": "build", "detail": f"{type(e).__name__}: {str(e)[:300]}"}]
+            # refused at construction (no collection, no entry point to compare): a C01 matter, noted with a sample
+            if count:
+                ctx.notes["construction_raises"] = ctx.notes.get("construction_raises", 0) + 1
+                lst = ctx.extra.setdefault("construction_raises_samples", [])
+                if len(lst) < 3:
+                    lst.append({"case": {k: case[k] for k in ("kind", "prog", "name") if k in case}, "error": f"{type(e).__name__}: {str(e)[:200]}"})
+            return None
         sched = case.get("sched", "sync")
         name0, chunks0, dtype0 = x.name, x.chunks, x.dtype
         kinds = None
